@@ -27,6 +27,6 @@ ASSUME \A nd \in Nodes :
                               expfeatures |-> FeaturesOf(var.feats), expiface |-> IfaceOf(var.base)])>>)
 
 VARIABLE x
-GInit == x = 0 /\ shape = <<>> /\ cache = <<>> /\ last = <<>>
+GInit == x = 0 /\ shape = <<>> /\ cache = <<>> /\ rerr = <<>> /\ last = <<>>
 GSpec == GInit /\ [][UNCHANGED <<x, vars>>]_<<x, vars>>
 =============================================================================
